@@ -349,7 +349,7 @@ theorem updateFile_inv (s : MSet) (k : Nat) (f f' : MFile) (h : SetInv s) (hf : 
       by_cases hlf : l = f
       · simp only [hlf, if_true, Option.some.injEq] at hg
         subst hg
-        exact List.mem_iff_getElem.mpr ⟨k, by simpa using hk, by simp⟩
+        exact List.mem_set hk _
       · simp only [hlf, if_false, Option.some.injEq] at hg
         subst hg
         obtain ⟨j, hj, hjl⟩ := List.getElem_of_mem (h.cache l hl)
@@ -380,18 +380,12 @@ theorem addLineInfo_inv (s s' : MSet) (k : Nat) (li : LineInfo) (h : SetInv s)
   · rename_i f hf
     obtain ⟨hk, hfe⟩ := List.getElem?_eq_some_iff.mp hf
     have hfm : f ∈ s.files := hfe ▸ List.getElem_mem hk
-    simp only at hs
-    generalize (match f.infos.getLast? with
-      | none => true
-      | some prev => decide (prev.offset < li.offset) && decide (li.offset < f.size)) = okb at hs
-    cases okb with
-    | true =>
-      simp only [if_true] at hs
+    by_cases hok : infoAccepted f li = true
+    · simp only [hok, if_true] at hs
       injection hs with hs
       subst hs
       exact updateFile_inv s k f _ h hf rfl rfl (h.size_nonneg f hfm) (h.size_le_cap f hfm)
-    | false =>
-      simp only [Bool.false_eq_true, if_false] at hs
+    · simp only [hok, if_false] at hs
       injection hs with hs
       subst hs; exact h
 
